@@ -123,7 +123,7 @@ def gen_dataset(rng, idx):
     s = gen_schema(rng)
     pool = {"s": rng.sample(STR_POOL, rng.choice([2, 3, 4, 6])), "i": rng.sample(INT_POOL, rng.choice([2, 3, 4]))}
     # series = entity value tuples
-    nser = rng.choice([1, 2, 3, 4, 6])
+    nser = rng.choice([2, 2, 3]) if s.feat["seriesnull"] else rng.choice([1, 2, 3, 4, 6])
     series = []
     for _ in range(nser):
         ev = {}
@@ -764,7 +764,9 @@ def classify_divergence(ds, rq, row, vec, distributed):
                 return V("projection error differs")
         return None
     if rs == "PANIC" and vs == "PANIC":
-        return V("both pipelines panic")
+        # both fail: rejection parity holds.  Only for requests outside the documented contract (nil time_range, which the
+        # gRPC layer refuses before the liaison; top.number <= 0, F15p4) – a panic of both on a valid request is reported.
+        return None if (viol & (P3 | P4)) else V("both pipelines panic on a contract-respecting request")
     # ---- request shapes outside the documented contract (neither pipeline validates them the same way)
     if viol & P4 and ((rs in ("ERR", "PANIC") and vs == "OK") or rs == "PANIC"):
         return ("known", "F15p4", "top.number <= 0: row path panics in TopQueue.Insert, vectorized path returns no rows")
@@ -1311,6 +1313,17 @@ class C15(vlib.Spec):
             for j in range(8):
                 rq = gen_request_valid(rng, s) if rng.random() < 0.8 else gen_request(rng, s)
                 out.append("%s %s %s" % ("par" if j < 6 else "dist", d, jd(rq)))
+            if "seriesnull" in ds["feat"]:
+                # a node whose rows all lack one field/tag sends that column with another wire type than its peers:
+                # plain distributed projections of every field exercise the liaison's schema union in both arrival orders
+                lo, hi = min(s.tss), max(s.tss)
+                tp = [{"f": f["n"], "tags": [t["n"] for t in f["tags"] if t["n"] in s.entity or rng.random() < 0.3]} for f in s.families]
+                tp = [g for g in tp if g["tags"]]
+                for ob in (None, {"rule": "", "sort": "desc"}):
+                    rq = {"tr": [lo - 1000, hi + 1000], "tp": tp, "fp": [f["n"] for f in s.fields]}
+                    if ob:
+                        rq["ob"] = ob
+                    out.append("dist %s %s" % (d, jd(rq)))
         nf = max(200, n * 6)
         frames = [gen_frame_case(rng) for _ in range(nf)]
         out += frames
